@@ -25,6 +25,15 @@ class HarnessError(Exception):
     """The machinery (not the repository) misbehaved: exit 2, never a VIOLATION."""
 
 
+class SolverMisbehaved(BaseException):
+    """The real MILP solver (CBC) returned, with status Optimal, a point that violates the
+    LpProblem it was given.  Every property speaks about solutions a solver is entitled to
+    return; such a point is not one, so the case is outside their premise: it is counted
+    (label skipped:solver_returned_infeasible_point) and neither a violation nor a harness
+    error.  (BaseException so that it passes through the repository's and call_repo's
+    `except Exception` untouched.)"""
+
+
 class Violation(Exception):
     """The property does not hold for this case.
 
